@@ -370,7 +370,7 @@ func (r *Run) execute() int {
 func (r *Run) kindCounts(o *Obligation, sweep bool) bool {
 	if sweep {
 		switch o.Kind {
-		case "safety", "variant", "pre":
+		case "safety", "variant", "pre", "typeframe":
 			return true
 		}
 		return false
